@@ -464,4 +464,233 @@ def no_stale(ctx):
                        'the Jones matrix refers to an earlier call', min_methods=3)
 
 
-RULES = [no_stale, fresnel, rotation_law, retarder, projectors, aoi]
+def pol_frames(ctx):
+    """PolarizedRays.update / _get_3d_electric_field / get_output_field proved
+    with the vector evaluator: the s-p-k frames before and after a surface
+    are orthonormal, the surface matrix maps the old direction onto the new
+    one, keeps a transverse field transverse for every block-diagonal Jones
+    matrix, and is orthogonal (intensity preserved for every state) when
+    there is no coating."""
+    from ..vec import (VecEv, V, Mx, dot, cross, matmul, transpose,
+                       ZERO as Z0)
+    from ..paths import paths, call_attr
+    P = ctx.P
+    res = Result('POL-FRAMES', 'one surface of the polarisation trace: '
+                 'orthonormal s-p-k frames, k0 -> k1, transverse fields stay '
+                 'transverse for any block-diagonal Jones matrix, orthogonal '
+                 'surface matrix without coating; launch field transverse '
+                 'with |E|^2 = Ex^2 + Ey^2')
+    up = P.func('PolarizedRays.update')
+    res.saw(up)
+    A = Rat.atom
+    I3 = Mx(((ONE, Z0, Z0), (Z0, ONE, Z0), (Z0, Z0, ONE)))
+
+    def is_I(m, sym):
+        return all(sym.eq(m[i][j], I3[i][j]) for i in range(3)
+                   for j in range(3))
+
+    def veq(u, v, sym):
+        return all(sym.eq(x, y) for x, y in zip(u, v))
+
+    for scen in ('generic', 'parallel'):
+        for coated in (False, True):
+            sym = Sym()
+            k0 = V((A('a'), A('b'), A('c')))
+            sym.rel['c'] = ONE - A('a') * A('a') - A('b') * A('b')
+            if scen == 'generic':
+                k1 = V((A('d'), A('e'), A('f')))
+                sym.rel['f'] = ONE - A('d') * A('d') - A('e') * A('e')
+            else:
+                k1 = k0
+            J = Mx(((A('j00'), A('j01'), Z0), (A('j10'), A('j11'), Z0),
+                    (Z0, Z0, A('j22'))))
+            attr = {'self.L0': k0[0], 'self.M0': k0[1], 'self.N0': k0[2],
+                    'self.L': k1[0], 'self.M': k1[1], 'self.N': k1[2],
+                    'self.p': I3}
+
+            def scenario(q, scen=scen, coated=coated):
+                kind, txt = q
+                if kind == 'if' and 'np.any(' in txt and '== 0' in txt:
+                    return scen == 'parallel'
+                if kind == 'if' and txt.replace(' ', '') == \
+                        'jones_matrixisNone':
+                    return not coated
+                if kind == 'mask' and '== 0' in txt:
+                    return True
+                return None
+            ev = VecEv(sym=sym, attr=attr, scenario=scenario)
+            ev.env['jones_matrix'] = J
+            try:
+                ev.run(up.node.body)
+            except Inconclusive as e:
+                raise AnalysisError(f'PolarizedRays.update: {e}')
+            p = ev.attr['self.p']
+            o_in, o_out = ev.env.get('o_in'), ev.env.get('o_out')
+            tag = f'{scen} directions, ' + ('Jones matrix' if coated
+                                            else 'no coating')
+            if not isinstance(p, Mx):
+                raise AnalysisError('PolarizedRays.update: self.p not a matrix')
+            bad = None
+            if not coated:
+                if not (isinstance(o_in, Mx) and isinstance(o_out, Mx)):
+                    raise AnalysisError('update: frames o_in / o_out not found')
+                if not is_I(matmul(o_in, transpose(o_in)), sym):
+                    bad = 'the incoming s-p-k frame is not orthonormal'
+                elif not is_I(matmul(transpose(o_out), o_out), sym):
+                    bad = 'the outgoing s-p-k frame is not orthonormal'
+                elif not (veq(cross(V(o_in[0]), V(o_in[1])), k0, sym) and
+                          veq(cross(V(transpose(o_out)[0]),
+                                    V(transpose(o_out)[1])), k1, sym)):
+                    bad = 's x p = k does not hold in both frames (the ' \
+                          'frames differ in handedness: the p component ' \
+                          'changes sign at the surface)'
+                elif not veq(matmul(p, k0), k1, sym):
+                    bad = 'the surface matrix does not map the incoming ' \
+                          'direction onto the outgoing direction'
+                elif not is_I(matmul(transpose(p), p), sym):
+                    bad = 'the uncoated surface matrix is not orthogonal ' \
+                          '(intensity is not preserved for every state)'
+                elif not veq(matmul(p, V(o_in[0])), V(o_in[0]), sym):
+                    bad = 'the s direction is not kept by the uncoated ' \
+                          'surface matrix'
+            else:
+                # k1^T p = j22 k0^T: the component of the output along the new
+                # ray is j22 times the component of the input along the old
+                # ray, i.e. zero for a transverse input, whatever the 2x2 block
+                lhs = matmul(transpose(p), k1)
+                rhs = V(tuple(A('j22') * x for x in k0))
+                if not veq(lhs, rhs, sym):
+                    bad = 'a transverse input field does not stay ' \
+                          'transverse to the outgoing ray'
+                else:
+                    # the 2x2 block acts on (s, p) components: s^T p s = j00
+                    s_ = V(o_in[0]) if isinstance(o_in, Mx) else None
+                    if s_ is not None and not sym.eq(
+                            dot(s_, matmul(p, s_)), A('j00')):
+                        bad = 'the s-s element of the Jones matrix does ' \
+                              'not act on the s component'
+            if bad:
+                res.fail(ctx.finding('POL-FRAMES', up, up.node,
+                                     f'{tag}: {bad}',
+                                     construct=f'update: {tag}'))
+            else:
+                res.ok(f'update, {tag}')
+    # composition order and left multiplication
+    from ..match import find
+    if find(up, 'self.p = np.matmul($p, self.p)'):
+        res.ok('ray matrix := surface matrix x ray matrix')
+    else:
+        res.fail(ctx.finding('POL-FRAMES', up, up.node,
+                             'the surface matrix is not applied on the left '
+                             'of the accumulated ray matrix',
+                             construct='update: accumulation order'))
+    # launch field
+    g = P.func('PolarizedRays._get_3d_electric_field')
+    res.saw(g)
+    sym = Sym()
+    sym.rel['I'] = -ONE
+    k = V((A('a'), A('b'), A('c')))
+    sym.rel['c'] = ONE - A('a') * A('a') - A('b') * A('b')
+    ev = VecEv(sym=sym, attr={'self._L0': k[0], 'self._M0': k[1],
+                              'self._N0': k[2]},
+               scenario=lambda q: False if q[0] == 'if' else None)
+    try:
+        ev.run(g.node.body)
+    except Inconclusive as e:
+        raise AnalysisError(f'_get_3d_electric_field: {e}')
+    E = ev.returned
+    if not isinstance(E, V):
+        raise AnalysisError('_get_3d_electric_field: no vector returned')
+    Ec = V(tuple(sym.conj(z) for z in E))
+    n2 = dot(E, Ec)
+    want = A('state.Ex') * A('state.Ex') + A('state.Ey') * A('state.Ey')
+    if sym.is_zero(dot(E, k)) and sym.eq(n2, want):
+        res.ok('launch field: E . k = 0 and |E|^2 = Ex^2 + Ey^2')
+    else:
+        res.fail(ctx.finding('POL-FRAMES', g, g.node,
+                             'the launch field is not transverse to the ray '
+                             'or |E|^2 differs from Ex^2 + Ey^2',
+                             construct='launch field'))
+    # x and y components are the stated ones: for a ray along z, E = (Ex', Ey')
+    go = P.func('PolarizedRays.get_output_field')
+    res.saw(go)
+    if find(go, 'np.matmul(self.p, E[:, :, np.newaxis])'):
+        res.ok('output field = ray matrix x input field')
+    else:
+        res.fail(ctx.finding('POL-FRAMES', go, go.node,
+                             'output field is not the ray matrix applied to '
+                             'the input field', construct='get_output_field'))
+    pi = P.func('PolarizedRays.__init__')
+    res.saw(pi)
+    if find(pi, 'self.p = np.tile(np.eye(3), (self.x.size, 1, 1))') and \
+            find(pi, 'self._L0 = L.copy()') and \
+            find(pi, 'self._M0 = M.copy()') and \
+            find(pi, 'self._N0 = N.copy()') and \
+            find(pi, 'self._i0 = intensity.copy()'):
+        res.ok('rays start with the identity matrix and remember the launch '
+               'direction and intensity')
+    else:
+        res.fail(ctx.finding('POL-FRAMES', pi, pi.node,
+                             'launch state (identity matrix, launch '
+                             'direction, launch intensity) not recorded',
+                             construct='PolarizedRays.__init__'))
+    # every Jones matrix is block diagonal: only [0:2, 0:2] and [2, 2]
+    n = 0
+    for cn, c in P.classes.items():
+        if 'BaseJones' not in P.mro(cn) or cn == 'BaseJones':
+            continue
+        m = c.methods.get('calculate_matrix')
+        if m is None:
+            continue
+        res.saw(m)
+        n += 1
+        bad = None
+        for st in ast.walk(m.node):
+            if isinstance(st, ast.Assign) and isinstance(
+                    st.targets[0], ast.Subscript) and \
+                    unparse(st.targets[0].value) == 'jones_matrix':
+                sl = st.targets[0].slice
+                idx = [unparse(x) for x in sl.elts] if isinstance(
+                    sl, ast.Tuple) else []
+                if len(idx) != 3 or idx[0] != ':':
+                    bad = unparse(st.targets[0])
+                elif (idx[1], idx[2]) == ('2', '2'):
+                    if unparse(st.value) not in ('1', '-1'):
+                        bad = unparse(st)
+                elif not (idx[1] in ('0', '1') and idx[2] in ('0', '1')):
+                    bad = unparse(st.targets[0])
+        if not find(m, 'jones_matrix = np.zeros((rays.x.size, 3, 3), '
+                       'dtype=complex)'):
+            bad = bad or 'matrix not initialised to zeros'
+        if bad:
+            res.fail(ctx.finding('POL-FRAMES', m, m.node,
+                                 f'{m.qual}: Jones matrix is not block '
+                                 f'diagonal ([0:2, 0:2] and [2, 2] = +-1): '
+                                 f'{bad}', construct=f'{m.qual} block form'))
+        else:
+            res.ok(f'{m.qual}: block-diagonal 3x3')
+    if n < 9:
+        raise AnalysisError(f'POL-FRAMES: only {n} Jones classes found')
+    # one update per surface, after the new direction is known
+    it = P.func('Surface._interact')
+    res.saw(it)
+    bad = None
+    for p_ in paths(it, loop_iters=(1,)):
+        seq = [call_attr(e) for e in p_.events if e.kind == 'call']
+        ups = [i for i, c in enumerate(seq) if c in ('update', 'interact')]
+        bend = [i for i, c in enumerate(seq) if c in ('refract', 'reflect')]
+        if len(ups) != 1 or not bend or ups[0] < bend[0]:
+            bad = seq
+            break
+    if bad:
+        res.fail(ctx.finding('POL-FRAMES', it, it.node,
+                             f'Surface._interact: the ray matrix is not '
+                             f'updated exactly once after the ray is bent '
+                             f'(calls {bad})', construct='_interact update'))
+    else:
+        res.ok('Surface._interact: exactly one update / coating interaction, '
+               'after refract / reflect')
+    return res
+
+
+RULES = [no_stale, pol_frames, fresnel, rotation_law, retarder, projectors, aoi]
